@@ -103,11 +103,26 @@ def apply_edits(src, subs):
     return src
 
 
+def seq_applies(seq):
+    cur = BASE
+    applied = {}
+    try:
+        for lab in seq:
+            if lab.endswith('~'):
+                cur = applied[lab[:-1]]
+            else:
+                applied[lab] = cur
+                cur = apply_edits(cur, EDITS[lab])
+    except Inconclusive:
+        return False
+    return True
+
+
 class C08(H.Check):
     id = 'C08'
     title = 'The cache never leaves stale bindings: success means output is current'
     INERT = ('include-private', 'comment-only', 'helper-fn-added')      # includePrivate is hashed but read by no generator: the edit cannot change the output
-    required_covers = ('path:cli', 'path:build', 'second-run:up-to-date', 'second-run:regenerated', 'edit:source', 'edit:config', 'edit:file-lost', 'sequence') + \
+    required_covers = ('path:cli', 'path:build', 'second-run:up-to-date', 'second-run:regenerated', 'edit:source', 'edit:config', 'edit:file-lost', 'sequence', 'two-outputs') + \
         tuple('effective:' + l for l in list(EDITS) + list(EDITS_CH) + list(CONF_EDITS) + list(FILE_EDITS) + ['file-lost:' + f for f in LOST] if l not in ('include-private', 'comment-only', 'helper-fn-added'))
 
     def bounds(self, tier):
@@ -138,6 +153,7 @@ class C08(H.Check):
                 yield ('%s/file/%s' % (path, lab), dict(kind='file', path=path, edit=lab))
             for f in LOST:
                 yield ('%s/lost/%s' % (path, f), dict(kind='lost', path=path, file=f))
+            yield ('%s/two-outputs' % path, dict(kind='two-out', path=path))
             seqs = [('param-type', 'field-serde-rename'), ('field-serde-rename', 'param-type'), ('event-added', 'command-added'), ('validator-changed', 'param-type'),
                     ('param-type', 'param-type~'), ('struct-rename-all', 'struct-rename-all~')]
             if not q:
@@ -145,6 +161,8 @@ class C08(H.Check):
                        'event-payload-struct-edited', 'channel-added']
                 seqs = [(a, b) for a in rep for b in rep if a != b] + [(a, a + '~') for a in rep] + [(a, a + '~', a) for a in rep[:5]]
             for s in seqs:
+                if not seq_applies(s):
+                    continue        # the second edit rewrites text the first one already changed
                 yield ('%s/seq/%s' % (path, '+'.join(s)), dict(kind='seq', path=path, seq=s))
 
     def mutant_scenarios(self, tier, name):
@@ -175,11 +193,13 @@ class C08(H.Check):
         def body(e):
             e.order_mode = 'insertion'
             e.cover('path:' + path)
-            mode = ('none', 'zod')[e.choose(2)] if kind in ('src', 'lost', 'seq', 'file') else None
+            mode = ('none', 'zod')[e.choose(2)] if kind in ('src', 'lost', 'seq', 'file', 'two-out') else None
             base_tg = dict(typeMappings={'Uuid': 'string'})
             if mode:
                 base_tg['validationLibrary'] = mode
             stages = []       # [(source text, typegen dict | None, standalone dict | None, lost file | None)]
+            if kind == 'two-out':
+                return self.two_outputs(ctx, e, I, path, mode)
             if kind == 'src':
                 b, subs = (BASE, EDITS[p['edit']]) if p['edit'] in EDITS else EDITS_CH[p['edit']]
                 stages = [(b, base_tg, None, None), (apply_edits(b, subs), base_tg, None, None)]
@@ -295,12 +315,52 @@ class C08(H.Check):
         eng.explore(body, lambda e, o: ctx.sample(dict(scenario=name), 1) if o[0] == 'ok' else None)
         ctx.finish_engine(eng)
 
+    OUT_B = '/w/app/src/admin'
+
+    def two_outputs(self, ctx, e, I, path, mode):
+        """one project generated into two output directories in turn (CLI: -o; build script: outputPath edited):
+        generate A, generate B, edit, generate A, generate B -- B must be current"""
+        e.cover('two-outputs')
+        src1 = apply_edits(BASE, [('pub id: i32,', 'pub id: i32,\n    pub email: String,')])
+        tgA = X.typegen_conf(validationLibrary=mode, typeMappings={'Uuid': 'string'})
+        tgB = dict(tgA, outputPath='../src/admin')
+        box = X.Box(I, PL.Project({'src/lib.rs': BASE}, {}, {}), typegen=tgA)
+
+        def run(which):
+            if path == 'cli':
+                return box.cli(output_path='../src/admin') if which == 'B' else box.cli()
+            box.set_typegen(tgB if which == 'B' else tgA)
+            return box.build()
+        wit = lambda m: dict(path=path, kind='two-out', mode=mode, label='two-outputs', stages=[(BASE, None, None, None), (src1, None, None, None)])
+        for step, which in enumerate(('A', 'B', 'edit', 'A', 'B')):
+            if which == 'edit':
+                box.set_project(PL.Project({'src/lib.rs': src1}, {}, {}))
+                continue
+            r = run(which)
+            if not X.is_ok(r):
+                return ('err', None)
+        ref = X.Box(I, PL.Project({'src/lib.rs': src1}, {}, {}), typegen=tgB, out_exists=False, out_abs=self.OUT_B)
+        rr = ref.run(path) if path == 'build' else ref.cli()
+        if not X.is_ok(rr):
+            return ('err', None)
+        have = {FS.file_name(en[0]).py(): en[2] for en in box.w.children(Str(self.OUT_B)) if en[1] == 'file'}
+        for n, c in ref.out_files():
+            n = n.py()
+            if n == '.typecache':
+                continue
+            eq = X.content_eq(have[n], c) if n in have else False
+            ctx.violation(e, 'C08/%s/two-outputs/stale' % path, 'after a successful non-forced run every file of a fresh generation exists with the same content',
+                          (not eq) if isinstance(eq, bool) else z_not(eq), wit, '%s in the second output directory differs from a fresh generation' % n)
+        return ('ok', None)
+
     # ------------------------------------------------------------------------------------------
     def replay(self, f):
         w = f['witness']
         cls = f['key'].rsplit('/', 1)[1]
         path = w['path']
         stages = w['stages']
+        if w['kind'] == 'two-out':
+            return self.replay_two(w)
 
         def conf_steps(st):
             src, tg, sa, lost = st
@@ -333,6 +393,27 @@ class C08(H.Check):
         pre = 'app/src/generated/'
         want = {k: v for k, v in fresh[0]['snap'].items() if k.startswith(pre) and v is not None and not k.endswith('.typecache')}
         return any(last['snap'].get(k) != v for k, v in want.items())
+
+    def replay_two(self, w):
+        tgA = X.typegen_conf(validationLibrary=w['mode'], typeMappings={'Uuid': 'string'})
+        tgB = dict(tgA, outputPath='../src/admin')
+        confA = ('write', 'app/src-tauri/tauri.conf.json', X.json.dumps(X.conf_doc(tgA)))
+        confB = ('write', 'app/src-tauri/tauri.conf.json', X.json.dumps(X.conf_doc(tgB)))
+        src0 = ('write', 'app/src-tauri/src/lib.rs', w['stages'][0][0])
+        src1 = ('write', 'app/src-tauri/src/lib.rs', w['stages'][1][0])
+        if w['path'] == 'cli':
+            A, B = [('cli', [])], [('cli', ['-o', '../src/admin'])]
+            freshB = [('mkdir', 'app/src'), src1, confA] + B
+        else:
+            A, B = [confA, ('build',)], [confB, ('build',)]
+            freshB = [('mkdir', 'app/src'), src1] + B
+        res = X.native_history([('mkdir', 'app/src'), src0, confA] + A + B + [src1] + A + B)
+        fresh = X.native_history(freshB)
+        if res[-1]['rc'] != 0 or fresh[-1]['rc'] != 0:
+            return False
+        pre = 'app/src/admin/'
+        want = {k: v for k, v in fresh[-1]['snap'].items() if k.startswith(pre) and v is not None and not k.endswith('.typecache')}
+        return any(res[-1]['snap'].get(k) != v for k, v in want.items())
 
     def mutants(self):
         def param_type_not_hashed(prog):
